@@ -1,5 +1,5 @@
 From Coq Require Import Extraction ExtrOcamlBasic.
-From GM Require Import Base.Topic Model.WsConn Model.SubTrie Model.SubSpec Model.TopicMatch Oracle.C18O Oracle.C02O.
+From GM Require Import Base.Topic Model.WsConn Model.SubTrie Model.SubSpec Model.TopicMatch Base.Msg Model.RetTrie Oracle.C18O Oracle.C02O Oracle.C07O.
 Extraction Language OCaml.
 Set Extraction KeepSingleton.
 Extraction "model.ml"
@@ -7,4 +7,5 @@ Extraction "model.ml"
   SubTrie.db_run SubTrie.db_iterate SubTrie.db_client_stats SubTrie.db_init SubSpec.spec_run SubSpec.wf_ops
   C02O.c02_query_ok C02O.c11_query_ok C02O.mixed_query_ok C02O.expect_gstats C02O.expect_cstats
   C02O.expect_already C02O.model_already C02O.ires_eqb C02O.tm_ok C02O.tm_model
+  RetTrie.rdb_run RetTrie.rspec_run RetTrie.retain_op C07O.rmodel_answer C07O.c07_store_ok C07O.mmeq Msg.msg_total_bytes
   TopicMatch.valid_name_spec TopicMatch.valid_filter_spec Topic.topic_match.
